@@ -52,7 +52,7 @@ def _val_str(m, const):
     v = m.eval(const, model_completion=True)
     if z3.is_bool(v):
         return z3.is_true(v)
-    if z3.is_int_value(v):
+    if z3.is_int_value(v) or z3.is_bv_value(v):
         return str(v.as_long())
     if z3.is_rational_value(v):
         return str(Fraction(v.numerator_as_long(), v.denominator_as_long()))
